@@ -41,17 +41,14 @@ def _has_k1_text_match(cf):
     from . import filterref
 
     for pf in cf.get("props", []):
-        if pf.get("text_match") and pf["name"].upper() not in filterref.VTEXT_TYPED:
-            return True
-        if any(par.get("text_match") for par in pf.get("params", [])):
+        if pf.get("text_match") and (pf["name"].upper() == "CATEGORIES" or pf["name"].upper().startswith("X-")):
             return True
     return any(_has_k1_text_match(s) for s in cf.get("comps", []))
 
 
 def c11_gen_known(flt, raw, got, tz):
-    """K1: text-match on CATEGORIES, on values not typed TEXT by the library (X- properties,
-    ATTENDEE/ORGANIZER addresses) and on parameter values is whole-value (whole-category) equality
-    instead of a substring match.  Explains a disagreement iff the filter contains such a text-match
+    """K1: text-match on CATEGORIES (whole-category equality) and on X- properties (values of
+    unknown type: whole-value equality) is not a substring match.  Explains a disagreement iff the filter contains such a text-match
     and the server's verdict equals the reference evaluated with exactly that substitution."""
     from . import filterref
 
@@ -77,3 +74,48 @@ def c11_gen_known_failure(flt, resp):
 
 def c12_known(kind, flt, raw, got):
     return None
+
+
+# ---------------------------------------------------------------------------
+# C10
+
+
+def _comp_names(cf, out):
+    for sub in cf.get("comps", []):
+        out.add(sub["name"].upper())
+        _comp_names(sub, out)
+    return out
+
+
+def c10_known(flt, results, labels, ref, current=None):
+    """K5: the query index stores one list of values per (file, key); for a resource that holds
+    several components of the type the filter addresses (recurrence overrides, two VTODOs) the
+    indexed evaluation combines values of different components, so its verdict for that resource
+    can differ from evaluating the filter component by component.  Explains a disagreement iff all
+    configurations answered without error and every resource on which some configuration differs
+    from the never-indexing one holds >= 2 components of a type named in the filter."""
+    from . import icalref
+
+    if current is None or any(r[0] != "ok" for r in results):
+        return None
+    types = _comp_names(flt, set())
+    base = set(results[ref][1])
+    diff = set()
+    for r in results:
+        diff |= set(r[1]) ^ base
+    if not diff:
+        return None
+    for n in diff:
+        raw = current.get(n)
+        if raw is None:
+            return None
+        try:
+            cal = icalref.parse_one(raw, "VCALENDAR")
+        except icalref.ParseError:
+            return None
+        counts = {}
+        for c in cal.walk():
+            counts[c.name] = counts.get(c.name, 0) + 1
+        if not any(counts.get(t, 0) >= 2 for t in types):
+            return None
+    return "K5"
